@@ -7,6 +7,6 @@ CONSTANTS
   Sizes <- SizesFull
   Labels = {"", "L", "l", "K", "L_002", "locus001"}
   Targets = {1, 2, 3, 4}
-  TaxonSets <- TaxonSetsFull
+  TaxonSeqs <- TaxonSeqsFull
 INVARIANT TypeOK
 CHECK_DEADLOCK FALSE
